@@ -395,6 +395,20 @@ func (t *Table) InsertRow(position int, data []string) error {
 		return fmt.Errorf("数据列数(%d)超过表格列数(%d)", len(data), colCount)
 	}
 
+	// 新行的单元格互不合并，所以需要的单元格数是网格列数：
+	// 第一行含水平合并的单元格时，它的单元格数少于网格列数
+	templateCellCount := colCount
+	gridCount := 0
+	for i := range t.Rows[0].Cells {
+		gridCount += t.Rows[0].Cells[i].gridSpanValue()
+	}
+	if t.Grid != nil && len(t.Grid.Cols) > 0 {
+		gridCount = len(t.Grid.Cols)
+	}
+	if gridCount > colCount {
+		colCount = gridCount
+	}
+
 	// 创建新行
 	newRow := TableRow{
 		Cells: make([]TableCell, colCount),
@@ -405,7 +419,7 @@ func (t *Table) InsertRow(position int, data []string) error {
 	for i := 0; i < colCount; i++ {
 		// 深拷贝单元格属性
 		var cellProps *TableCellProperties
-		if templateRow.Cells[i].Properties != nil {
+		if i < templateCellCount && templateRow.Cells[i].Properties != nil && templateRow.Cells[i].gridSpanValue() == 1 {
 			cellProps = &TableCellProperties{}
 			// 复制宽度
 			if templateRow.Cells[i].Properties.TableCellW != nil {
